@@ -115,6 +115,11 @@ def is_set_expr(n, setnames):
         return True
     if isinstance(n, ast.BinOp) and isinstance(n.op, (ast.BitOr, ast.BitAnd, ast.Sub, ast.BitXor)) and (is_set_expr(n.left, setnames) or is_set_expr(n.right, setnames)):
         return True
+
+    def is_view(v):      # dict views take part in set algebra and the result is a plain set (seed C19-g: `tokens.keys() & condition.events`)
+        return isinstance(v, ast.Call) and isinstance(v.func, ast.Attribute) and v.func.attr in ('keys', 'items') and not v.args and not v.keywords
+    if isinstance(n, ast.BinOp) and isinstance(n.op, (ast.BitOr, ast.BitAnd, ast.Sub, ast.BitXor)) and (is_view(n.left) or is_view(n.right)):
+        return True
     if isinstance(n, ast.Call) and isinstance(n.func, ast.Attribute) and n.func.attr in ('union', 'intersection', 'difference', 'symmetric_difference') \
             and is_set_expr(n.func.value, setnames):
         return True
